@@ -502,7 +502,7 @@ def run_model(runner, coacc, kind, cfg, lines, impl):
                 keep.append(x)
             out.append(" ".join(keep) + f" #taken={taken}")
         return out, ""
-    if kind == "mon":       # monitor-only suite (nests of combinators): there is no model, the implementation's trace is judged by the monitor alone
+    if kind == "mon":       # monitor-only suite (nests of combinators): the implementation's trace is judged by the monitor alone (the *-nest-sim suites compare with the composed model)
         return list(impl), ""
     out, rc, err = run_lines(runner, [cfg], lines)
     if len(out) != len(lines):
@@ -671,8 +671,9 @@ def decide(pid, tier, seed):
         if bins is None:
             batch_fail.append((sname, cfg, "the harness does not build against the current tree:\n" + err, None))
             continue
-        extra = [] if kind in ("cov", "mon", "nsim") else [c for c in corpus_cases if c.split(" ")[1].startswith("co:") == (kind == "co") and (f" {cfg}#" in c or "#" not in c)
-                                                   and not c.split(" ")[1].startswith("nest_")]      # nests have no model: monitor-only suites
+        # corpus: nests go to the nest-sim suites (the composed model predicts them), everything else to the flat suites
+        extra = [] if kind in ("cov", "mon") else [c for c in corpus_cases if c.split(" ")[1].startswith("co:") == (kind == "co") and (f" {cfg}#" in c or "#" not in c)
+                                                   and c.split(" ")[1].startswith("nest_") == (kind == "nsim")]
         cases = [c.split("#")[0].rstrip() for c in extra] + cases if sname.endswith("exhaustive") is False else cases
         stats["configs"].add(cfg)
         impl, err = run_impl(bins, kind, cases)
